@@ -71,7 +71,7 @@ func c12ShiftProbe(c *fw.Case) {
 		return
 	}
 	st := n.App.CfeminterKeeper.GetMinterState(n.Ctx())
-	if int(st.SequenceId) != j+2 {
+	if int(st.SequenceId) != j+1+int(mc.FirstID) {
 		c.Describe("state-not-in-expected-period")
 		return
 	}
